@@ -28,7 +28,9 @@ C_FUNCS = [
     ("tables.c", "tsk_table_collection_add_and_remap_node"),
     ("tables.c", "tsk_node_table_get_row"),
     ("tables.c", "tsk_node_table_get_row_unsafe"),
-]
+    # every index the table getters and comparisons form stays inside the columns (BOUNDS obligations)
+] + [("tables.c", "tsk_%s_table_%s" % (t, f)) for t in ("edge", "site", "mutation", "migration", "individual", "population", "provenance")
+     for f in ("get_row", "get_row_unsafe", "equals")] + [("tables.c", "tsk_node_table_equals")]
 UNVERIFIED = ["python/_tskitmodule.c (CPython API)", "tsk_ibd_finder_add_sample_ancestry (assumed contract)",
               "ancestor_mapper_add_ancestry (assumed contract)", "allocation-failure paths beyond NULL checks"]
 LEMMAS = ["lemmas.induction:psum_monotone"]
